@@ -51,6 +51,9 @@ fn judge_fault(sc: &Scenario, ex: &mut Exec, kind: K, idx: u64, errno: i32, fire
         }
     }
     // (1) success means the effect holds
+    if res.out.is_ok() && sc.op.is_write() && res.source_left && !absent_errno {
+        return mk("source-not-consumed", format!("{} reported success although {:?} #{} failed with {}, and its source file is still there", sc.op.name(), kind, idx, errno_name(errno)));
+    }
     let (wr, rd) = on_disk(sc, &ex.w);
     let new_tag = sc.op.tag();
     if res.out.is_ok() {
